@@ -2,14 +2,19 @@
    Only statements, each closed by [exact] of a lemma of Proofs/RejectProofs.v, with Print Assumptions; Examples show
    that the hypotheses are satisfiable and tie the parser-level sites to whole texts through the model pipeline.
 
-   Layers.  (R1-R7) the PARSER model on ARBITRARY remaining token streams ([toks_ahead p] = one-token cache ++ tokens the
-   scanner will still deliver), (S1-S3) the SCANNER model over the character-level input [str_ops].
+   Layers.  (R1-R8) the PARSER model on ARBITRARY remaining token streams ([toks_ahead p] = one-token cache ++ tokens the
+   scanner will still deliver), (S1-S8) the SCANNER model over the character-level input [str_ops], for ANY scanner
+   state of a stated shape, (B) the bridge: statements about whole TEXTS through [run_str] = scanner then parser.
    The full property -- every ill-formed character stream is rejected by the pipeline -- is [C06_full]; it is stated,
-   NOT proved, and in fact refuted for the faithful model (and the code) by four accepted ill-formed texts
-   ([C06_full_refuted], [C06_full_for_refuted]; known_findings_c06.jsonl).  What is proved are the rejection mechanisms listed below. *)
+   NOT proved, and in fact refuted for the faithful model (and the code) by two classes of accepted ill-formed texts
+   ([C06_full_refuted], [C06_full_for_refuted]; known_findings_c06.jsonl: implicit key longer than 1024 characters in a flow
+   sequence, flow continuation line at the block indentation).  Two further classes recorded earlier were repaired in
+   /repo (c5ad60c, ad74b3e) and are now PROVED rejected ([C06_accepted_implies_balanced] is the clean statement,
+   [C06_stray_closer_after_empty_key_rejected], [C06_multiline_flow_pair_key_rejected...]).  What is proved are the rejection
+   mechanisms listed below. *)
 From Coq Require Import List NArith ZArith Bool.
 Import ListNotations.
-Require Import Parser SBase SPrim SDir SScalar SFetch Pipe C02base C02run DocReset RejectProofs.
+Require Import Parser SBase SPrim SDir SScalar SFetch Pipe SInv C02base C02run DocReset RejectProofs RejectScan.
 Open Scope N_scope.
 
 (* ================================================================================================ *)
@@ -59,29 +64,76 @@ Theorem C06_sequence_end_behind_mapping_start_rejected : forall p t0 sp r,
 Proof. exact flow_map_first_key_sequence_end. Qed.
 Print Assumptions C06_sequence_end_behind_mapping_start_rejected.
 
-(* The clean global form "a run that ends in PDone read a token stream with balanced, matching flow brackets" is
-   FALSE for the faithful model: [flow_sequence_entry_mapping_key] consumes the FlowSequenceEnd behind an empty
-   explicit key, so the tokens of "[ ? ] ]" are accepted. *)
-Theorem C06_accepted_implies_balanced_refuted : ~ accepted_implies_balanced.
-Proof. exact accepted_implies_balanced_refuted. Qed.
-Print Assumptions C06_accepted_implies_balanced_refuted.
-
-(* What IS true globally, for EVERY token list, scanner ending and fuel (a second invariant through all 21 parser states,
-   Proofs/RejectProofs.v): an accepted stream obeys [bal'] = [flow_balanced] with that one defect built in (inside a flow
-   sequence a Key token directly followed by FlowSequenceEnd swallows the closer) ... *)
-Theorem C06_accepted_implies_balanced_modulo_swallowed_closer : forall toks keep se fuel,
-  snd (parse_all fuel (init_parser toks keep) se []) = PDone -> bal' toks [] = true.
-Proof. exact accepted_implies_balanced_modulo_swallowed_closer. Qed.
-Print Assumptions C06_accepted_implies_balanced_modulo_swallowed_closer.
-
-(* ... so every accepted stream without a Key token directly followed by FlowSequenceEnd has balanced, properly
-   matched flow brackets up to StreamEnd: no flow collection open at the end, no closer of the wrong kind, no stray
-   closer -- whatever else the stream contains *)
-Theorem C06_accepted_implies_balanced_without_swallowed_closer : forall toks keep se fuel,
-  no_key_then_closer toks = true ->
+(* The clean global form, for EVERY token list, scanner ending and fuel (a second invariant through all 21 parser states,
+   Proofs/RejectProofs.v): a run that ends in PDone read a token stream with balanced, properly matched flow brackets up to
+   StreamEnd -- no flow collection open at the end, no closer of the wrong kind, no stray closer -- whatever else the stream
+   contains.  (Before /repo c5ad60c this was false: the closer behind an empty explicit key was swallowed.) *)
+Theorem C06_accepted_implies_balanced : forall toks keep se fuel,
   snd (parse_all fuel (init_parser toks keep) se []) = PDone -> flow_balanced toks [] = true.
-Proof. exact accepted_implies_balanced_without_swallowed_closer. Qed.
-Print Assumptions C06_accepted_implies_balanced_without_swallowed_closer.
+Proof. exact accepted_implies_balanced_proved. Qed.
+Print Assumptions C06_accepted_implies_balanced.
+
+(* (B) the same about TEXTS: whatever the characters, an accepted text has a token stream with balanced, matched flow
+   brackets ([scan_of s] = what the scanner model delivers for [s]) ... *)
+Theorem C06_text_accepted_implies_balanced : forall s,
+  snd (run_str s) = PDone -> flow_balanced (fst (scan_of s)) [] = true.
+Proof. exact text_accepted_implies_balanced. Qed.
+Print Assumptions C06_text_accepted_implies_balanced.
+
+(* ... and a scanner error (or panic) is never swallowed by the parser: the parser can reach State::End only through a
+   StreamEnd token, and the token iterator delivers nothing behind the point of failure.  Every scanner-layer rejection
+   theorem below (S1-S8) therefore is a rejection of the whole text in which the situation arises. *)
+Theorem C06_scan_error_rejected : forall s,
+  (exists e m, snd (scan_of s) = SError e m) \/ (exists n, snd (scan_of s) = SPanic n) ->
+  snd (run_str s) <> PDone.
+Proof. exact scan_error_rejected. Qed.
+Print Assumptions C06_scan_error_rejected.
+
+(* composition: [reach F n s s'] = the token iterator started in [s] delivers n tokens and is then in state [s'].  If, run on
+   the text [l], it reaches (within the fuel of the pipeline) a state whose next call fails, [l] is rejected -- so a
+   scanner-layer rejection at ANY point of a scan rejects the whole text (reachability itself is a hypothesis). *)
+Theorem C06_reachable_scan_error_rejected : forall l n s e m,
+  reach (scan_fuel l) n (init_sc {| si_chars := l; si_look := 0 |}) s ->
+  (n < 4 * scan_fuel l + 20)%nat ->
+  next_token str_ops (scan_fuel l) s = Err e m ->
+  snd (run_str l) <> PDone.
+Proof. exact reachable_scan_error_rejected. Qed.
+Print Assumptions C06_reachable_scan_error_rejected.
+
+Theorem C06_reachable_fetch_error_rejected : forall l n s e m,
+  reach (scan_fuel l) n (init_sc {| si_chars := l; si_look := 0 |}) s ->
+  (n < 4 * scan_fuel l + 20)%nat ->
+  sc_stream_end s = false -> sc_token_available s = false -> sc_tokens s = [] ->
+  fetch_next_token str_ops (scan_fuel l) s = Err e m ->
+  snd (run_str l) <> PDone.
+Proof. exact reachable_fetch_error_rejected. Qed.
+Print Assumptions C06_reachable_fetch_error_rejected.
+
+(* not vacuous: the state behind the StreamStart token is reached after one token, for every text *)
+Theorem C06_reach_after_stream_start : forall l,
+  reach (scan_fuel l) 1 (init_sc {| si_chars := l; si_look := 0 |}) (after_stream_start l).
+Proof. exact reach_after_stream_start. Qed.
+Print Assumptions C06_reach_after_stream_start.
+
+(* /repo c5ad60c, positive form: behind an empty explicit key inside a flow sequence the token the parser looks at (Value,
+   FlowEntry or the closing FlowSequenceEnd) is NOT consumed ... *)
+Theorem C06_empty_explicit_key_keeps_next_token : forall p sp tk r,
+  p_state p = SFlowSequenceEntryMappingKey -> toks_ahead p = (sp, tk) :: r ->
+  (tk = TValue \/ tk = TFlowEntry \/ tk = TFlowSequenceEnd) ->
+  exists p', state_machine p = Parser.Ok ((empty_scalar, sp), p')
+             /\ toks_ahead p' = (sp, tk) :: r /\ p_state p' = SFlowSequenceEntryMappingValue /\ p_states p' = p_states p.
+Proof. exact empty_explicit_key_keeps_next_token. Qed.
+Print Assumptions C06_empty_explicit_key_keeps_next_token.
+
+(* ... hence every token stream  pre ++ [ FlowSequenceStart Key FlowSequenceEnd FlowSequenceEnd ] ++ rest  ("[ ? ] ]") with
+   only bracket-neutral tokens in front is rejected, whatever follows *)
+Theorem C06_stray_closer_after_empty_key_rejected : forall pre sp1 sp2 sp3 sp4 rest keep se fuel,
+  Forall (fun t => neutral (snd t) = true) pre ->
+  snd (parse_all fuel
+         (init_parser (pre ++ (sp1, TFlowSequenceStart) :: (sp2, TKey) :: (sp3, TFlowSequenceEnd) :: (sp4, TFlowSequenceEnd) :: rest) keep)
+         se []) <> PDone.
+Proof. exact stray_closer_after_empty_key_rejected. Qed.
+Print Assumptions C06_stray_closer_after_empty_key_rejected.
 
 (* the one-step form: from any state satisfying C02's invariant, goodness of the successor implies goodness of [p] *)
 Theorem C06_step_keeps_bracket_invariant : forall p g,
@@ -107,6 +159,21 @@ Theorem C06_second_root_run_rejected : forall p sp tk r fuel se acc,
   run_end (2 + fuel) p se acc = PParseErr 3 (sp_start sp).
 Proof. exact second_root_run_rejected. Qed.
 Print Assumptions C06_second_root_run_rejected.
+
+(* at the level of whole token streams and texts: a document whose root node is a scalar (any style), followed by any token
+   that can only be more content *)
+Theorem C06_second_root_after_scalar_rejected : forall sp0 sp1 st v sp2 tk r keep se fuel,
+  content_tok tk = true ->
+  run_end (5 + fuel) (init_parser ((sp0, TStreamStart) :: (sp1, TScalar st v) :: (sp2, tk) :: r) keep) se []
+  = PParseErr 3 (sp_start sp2).
+Proof. exact second_root_after_scalar_rejected. Qed.
+Print Assumptions C06_second_root_after_scalar_rejected.
+
+Theorem C06_second_root_after_scalar_text_rejected : forall s sp0 sp1 st v sp2 tk r,
+  fst (scan_of s) = (sp0, TStreamStart) :: (sp1, TScalar st v) :: (sp2, tk) :: r -> content_tok tk = true ->
+  snd (run_str s) = PParseErr 3 (sp_start sp2).
+Proof. exact second_root_after_scalar_text_rejected. Qed.
+Print Assumptions C06_second_root_after_scalar_text_rejected.
 
 (* a directive there is site 4 ("missing explicit document end marker before directive") *)
 Theorem C06_directive_without_document_end_rejected : forall p sp tk r,
@@ -314,65 +381,264 @@ Proof. exact flow_level_below_limit_increases. Qed.
 Print Assumptions C06_flow_level_below_limit_increases.
 
 (* ================================================================================================ *)
+(* R8 / S4: a block entry or key that is neither aligned with nor nested in an open collection         *)
+(* ================================================================================================ *)
+(* scanner half, ANY state in block context: a key / entry in a column deeper than the innermost open block collection
+   opens a NEW collection (Block*Start token queued, column pushed) instead of continuing the open one ... *)
+Theorem C06_deeper_column_starts_collection : forall (s : sc strin) col tk mk,
+  sc_flow_level s = 0 -> (sc_indent s < Z.of_N col)%Z ->
+  (forall i r, sc_indents s = i :: r -> in_needs_block_end i = true) ->
+  roll_indent col None tk mk s
+  = Ok (tt, set_tokens (sc_tokens s ++ [(span_empty mk, tk)])
+              (set_indent (Z.of_N col) ({| in_indent := sc_indent s; in_needs_block_end := true |} :: sc_indents s) s)).
+Proof. exact roll_indent_deeper_starts_collection. Qed.
+Print Assumptions C06_deeper_column_starts_collection.
+
+(* ... parser half, ANY token stream: where a block mapping expects its next key (or BlockEnd) every other token -- the
+   Block*Start or scalar of the mis-indented line -- is site 5 at that token; where a block sequence expects its next
+   entry, site 8 *)
+Theorem C06_misindented_key_rejected : forall p sp tk r,
+  p_state p = SBlockMappingKey -> toks_ahead p = (sp, tk) :: r -> continues_block_mapping tk = false ->
+  state_machine p = Parser.Err (PErr 5 (sp_start sp)).
+Proof. exact misindented_key_rejected. Qed.
+Print Assumptions C06_misindented_key_rejected.
+
+Theorem C06_misindented_entry_rejected : forall p sp tk r,
+  p_state p = SBlockSequenceEntry -> toks_ahead p = (sp, tk) :: r -> continues_block_sequence tk = false ->
+  state_machine p = Parser.Err (PErr 8 (sp_start sp)).
+Proof. exact misindented_entry_rejected. Qed.
+Print Assumptions C06_misindented_entry_rejected.
+
+(* ================================================================================================ *)
+(* S5: a tab used as block indentation                                                                *)
+(* ================================================================================================ *)
+(* ANY state inside a block collection, at a line start left of the current indentation, whose next character is a tab
+   followed by any run [ws] of blanks and then content [c] (no blank, no '#', no line break, not the end of input):
+   site 41 ("tabs disallowed within this context (block indentation)") at the content character *)
+Theorem C06_tab_indentation_rejected : forall F (s : sc strin) ws c rest,
+  si_chars (sc_in s) = 9 :: ws ++ c :: rest -> blank_run SkipYes ws -> is_content_start c ->
+  sc_indents s <> [] -> sc_lws s = true -> (Z.of_N (m_col (sc_mark s)) < sc_indent s)%Z ->
+  (S (length ws) < F)%nat ->
+  skip_to_next_token str_ops F s = Err 41 (adv (N.of_nat (S (length ws))) (sc_mark s)).
+Proof. exact tab_indentation_rejected. Qed.
+Print Assumptions C06_tab_indentation_rejected.
+
+Theorem C06_tab_indentation_fetch_rejected : forall F (s : sc strin) ws c rest,
+  sc_stream_start s = true ->
+  si_chars (sc_in s) = 9 :: ws ++ c :: rest -> blank_run SkipYes ws -> is_content_start c ->
+  sc_indents s <> [] -> sc_lws s = true -> (Z.of_N (m_col (sc_mark s)) < sc_indent s)%Z ->
+  (S (length ws) < F)%nat ->
+  fetch_next_token str_ops F s = Err 41 (adv (N.of_nat (S (length ws))) (sc_mark s)).
+Proof. exact tab_indentation_fetch_rejected. Qed.
+Print Assumptions C06_tab_indentation_fetch_rejected.
+
+(* a failing fetch is a failing token iterator when the queue is empty *)
+Theorem C06_fetch_error_is_scan_error : forall F (s : sc strin) e m,
+  sc_stream_end s = false -> sc_token_available s = false -> sc_tokens s = [] -> (0 < F)%nat ->
+  fetch_next_token str_ops F s = Err e m -> next_token str_ops F s = Err e m.
+Proof. exact next_token_fetch_err. Qed.
+Print Assumptions C06_fetch_error_is_scan_error.
+
+(* ================================================================================================ *)
+(* S6: a flow collection continued left of its enclosing block                                        *)
+(* ================================================================================================ *)
+(* ANY state in flow context whose next character starts a token in a column smaller than the indentation of the
+   enclosing block collection: site 102 ("invalid indentation").  (Column EQUAL to the block indentation is the known
+   finding flow-continuation-at-block-indentation, see below.) *)
+Theorem C06_flow_line_left_of_block_indentation_rejected : forall F (s : sc strin),
+  let c := nth 0 (si_chars (sc_in s)) 0 in
+  sc_stream_start s = true -> (0 < F)%nat ->
+  sc_flow_level s <> 0 ->
+  not_skipped c -> c <> 0 ->
+  (m_col (sc_mark s) <> 0 \/ (c <> 37 /\ c <> 45 /\ c <> 46)) ->
+  (Z.of_N (m_col (sc_mark s)) < sc_indent s)%Z ->
+  fetch_next_token str_ops F s = Err 102 (sc_mark s).
+Proof. exact flow_line_left_of_block_indentation_rejected. Qed.
+Print Assumptions C06_flow_line_left_of_block_indentation_rejected.
+
+(* ================================================================================================ *)
+(* S7: content after a document-end marker                                                            *)
+(* ================================================================================================ *)
+(* ANY state at column 0 whose input continues "..." blank [ws] [c] with [c] content (no comment, no line break, not the
+   end of input), with a well-formed indentation stack (SInv.inv2) and no required pending key: site 101 ("invalid
+   content after document end marker") at the content character *)
+Theorem C06_content_after_document_end_rejected : forall F (s : sc strin) b ws c rest k0 r0,
+  sc_stream_start s = true ->
+  si_chars (sc_in s) = 46 :: 46 :: 46 :: b :: ws ++ c :: rest -> (b = 32 \/ b = 9) -> blank_run SkipYes ws -> is_content_start c ->
+  m_col (sc_mark s) = 0 ->
+  sorted_from (sc_indent s) (sc_indents s) = true ->
+  sc_sks s = k0 :: r0 -> (forall k, In k (sc_sks s) -> sk_required k = false) ->
+  (S (length ws) < F)%nat ->
+  fetch_next_token str_ops F s = Err 101 (adv (N.of_nat (S (length ws))) (adv 3 (sc_mark s))).
+Proof. exact content_after_document_end_rejected. Qed.
+Print Assumptions C06_content_after_document_end_rejected.
+
+(* as a statement about texts: every text that starts with such a line *)
+Theorem C06_content_after_document_end_text_rejected : forall b ws c rest,
+  (b = 32 \/ b = 9) -> blank_run SkipYes ws -> is_content_start c ->
+  snd (run_str (46 :: 46 :: 46 :: b :: ws ++ c :: rest)) <> PDone.
+Proof. exact content_after_document_end_text_rejected. Qed.
+Print Assumptions C06_content_after_document_end_text_rejected.
+
+(* ================================================================================================ *)
+(* S8: a quoted scalar that is still open at the end of the input                                     *)
+(* ================================================================================================ *)
+(* ANY state about to scan a single- (double-) quoted scalar whose remaining input holds no further quote character of that kind,
+   whatever else it holds (line breaks, document markers, escapes, NUL): the scan ends in an ERROR (end of input, site
+   71; or earlier 70, 72, 73, 30-32) -- never in a token, a panic or exhausted fuel *)
+Theorem C06_open_quoted_scalar_rejected : forall F single (s : sc strin) body,
+  si_chars (sc_in s) = qchar single :: body -> qfree single body -> (length body < F)%nat ->
+  exists e m, scan_flow_scalar str_ops F single s = Err e m.
+Proof. exact open_quoted_scalar_rejected. Qed.
+Print Assumptions C06_open_quoted_scalar_rejected.
+
+(* the same from [fetch_next_token], for any started state standing on the opening quote *)
+Theorem C06_open_quoted_scalar_fetch_rejected : forall F single (s : sc strin) body,
+  sc_stream_start s = true ->
+  si_chars (sc_in s) = qchar single :: body -> qfree single body -> (length body < F)%nat ->
+  sorted_from (sc_indent s) (sc_indents s) = true ->
+  (sc_flow_level s <> 0 \/ forall k, In k (sc_sks s) -> sk_required k = false) ->
+  exists e m, fetch_next_token str_ops F s = Err e m.
+Proof. exact open_quoted_scalar_next_rejected. Qed.
+Print Assumptions C06_open_quoted_scalar_fetch_rejected.
+
+(* and for whole texts: EVERY text made of an opening quote and any characters other than that quote is rejected *)
+Theorem C06_open_quoted_text_rejected : forall single body,
+  qfree single body -> snd (run_str (qchar single :: body)) <> PDone.
+Proof. exact open_quoted_text_rejected. Qed.
+Print Assumptions C06_open_quoted_text_rejected.
+
+(* ================================================================================================ *)
+(* S8b: a quoted implicit key spanning lines (block context)                                          *)
+(* ================================================================================================ *)
+(* [flow_scalar_tail] is what scan_flow_scalar does once its loop stopped at the closing quote ([scan_flow_scalar_tail]).
+   ANY state in block context on the closing quote of a scalar that began on an EARLIER line, followed by blanks and ':'
+   (so the scalar would be an implicit key): site 74 at the ':' *)
+Theorem C06_scan_flow_scalar_tail : forall F single,
+  scan_flow_scalar str_ops F single
+  = bind mark (fun start => bind (skip_non_blank str_ops) (fun _ =>
+      bind (flow_go F single start F [] false 0 []) (fun str => flow_scalar_tail F single start str))).
+Proof. exact scan_flow_scalar_tail. Qed.
+Print Assumptions C06_scan_flow_scalar_tail.
+
+Theorem C06_multiline_quoted_key_rejected : forall F single start str (s : sc strin) q ws rest,
+  si_chars (sc_in s) = q :: ws ++ 58 :: rest -> blank_run SkipYes ws ->
+  sc_flow_level s = 0 -> m_line start <> m_line (sc_mark s) -> (length ws < F)%nat ->
+  flow_scalar_tail F single start str s = Err 74 (adv (N.of_nat (length ws)) (adv 1 (sc_mark s))).
+Proof. exact multiline_quoted_key_rejected. Qed.
+Print Assumptions C06_multiline_quoted_key_rejected.
+
+(* ================================================================================================ *)
+(* S9: an implicit key of a flow-sequence pair that spans lines (/repo ad74b3e)                       *)
+(* ================================================================================================ *)
+(* ANY state at the ':' of "key: value": the innermost flow level is a flow sequence outside an explicit "? key" pair (top
+   of implicit_flow_mapping_states Possible or Inside) and the key candidate began on an earlier line: site 98
+   ("illegal placement of ':' indicator") -- independent of any flow mapping opened and closed earlier (the state is
+   kept per level; before ad74b3e one sticky flag made the check vanish once any '{' had been seen) *)
+Theorem C06_multiline_flow_pair_key_rejected : forall F (s : sc strin) k r top rest,
+  sc_sks s = k :: r -> sk_possible k = true ->
+  sc_ifms s = top :: rest -> (top = ImPossible \/ top = ImInside) ->
+  m_line (sk_mark k) < m_line (sc_mark s) ->
+  nth 0 (tl (si_chars (sc_in s))) 0 <> 9 ->
+  sc_tokens_parsed s <= sk_token_number k ->
+  (N.to_nat (sk_token_number k - sc_tokens_parsed s) <= length (sc_tokens s))%nat ->
+  fetch_value str_ops F s = Err 98 (sc_mark s).
+Proof. exact multiline_flow_pair_key_rejected. Qed.
+Print Assumptions C06_multiline_flow_pair_key_rejected.
+
+(* ================================================================================================ *)
+(* T: text-level families -- a fixed first part, then ANY continuation of the stated shape             *)
+(* ================================================================================================ *)
+(* The state-level theorems S5, S7, S8 composed with [C06_reachable_fetch_error_rejected]: the reachability hypothesis is
+   discharged by evaluating the token iterator on the fixed first part (the rest of the input stays symbolic). *)
+(* k: QUOTE ...  -- the value of a block mapping opens a quoted scalar that is never closed *)
+Theorem C06_open_quote_in_mapping_value_rejected : forall single body,
+  qfree single body -> snd (run_str ([107; 58; 32] ++ qchar single :: body)) <> PDone.
+Proof. exact open_quote_in_mapping_value_rejected. Qed.
+Print Assumptions C06_open_quote_in_mapping_value_rejected.
+
+(* - QUOTE ...  -- the same as entry of a block sequence *)
+Theorem C06_open_quote_in_sequence_entry_rejected : forall single body,
+  qfree single body -> snd (run_str ([45; 32] ++ qchar single :: body)) <> PDone.
+Proof. exact open_quote_in_sequence_entry_rejected. Qed.
+Print Assumptions C06_open_quote_in_sequence_entry_rejected.
+
+(* a: NL TAB blanks content ...  -- a tab as indentation of the first nested line of a block mapping *)
+Theorem C06_tab_indentation_text_rejected : forall ws c rest,
+  blank_run SkipYes ws -> is_content_start c ->
+  snd (run_str ([97; 58; 10; 9] ++ ws ++ c :: rest)) <> PDone.
+Proof. exact tab_indentation_text_rejected. Qed.
+Print Assumptions C06_tab_indentation_text_rejected.
+
+(* a NL ... blank blanks content ...  -- content behind the document-end marker that follows a root scalar *)
+Theorem C06_content_after_document_end_behind_scalar_rejected : forall b ws c rest,
+  (b = 32 \/ b = 9) -> blank_run SkipYes ws -> is_content_start c ->
+  snd (run_str ([97; 10; 46; 46; 46] ++ b :: ws ++ c :: rest)) <> PDone.
+Proof. exact content_after_document_end_behind_scalar_rejected. Qed.
+Print Assumptions C06_content_after_document_end_behind_scalar_rejected.
+
+(* ================================================================================================ *)
 (* The full property and its status                                                                    *)
 (* ================================================================================================ *)
 (* The full property as a closed statement: [damaged] (Proofs/RejectProofs.v) composes a renderer of well-formed one-line
    flow documents ([render_flow] on [wf_ok] trees: lower-case words, quoted words, sequences, mappings, empty explicit
-   keys) with four damage operators (stray closer, dropped closer, swapped closer, second root node).  Every
-   [damaged] text is ill-formed by construction.  NOT proved; refuted below ([C06_full_refuted]).  The general
-   form, for any specification [ill_formed] of ill-formed character streams (the damage operators of
-   vlib/p_c06.py composed with its generator), is [C06_full_for]. *)
-Definition C06_full : Prop := forall s, damaged s -> snd (run_str s) <> PDone.
+   keys) with four damage operators (stray closer, dropped closer, swapped closer, second root node); [damaged_known]
+   adds the two operators of the recorded findings (a flow-sequence pair whose key is longer than 1024 characters; a flow
+   continuation line at the column of the enclosing block key).  Every such text is ill-formed by construction.
+   NOT proved; refuted below ([C06_full_refuted]) by [damaged_known].  The general form, for any specification
+   [ill_formed] of ill-formed character streams (the damage operators of vlib/p_c06.py composed with its generator), is
+   [C06_full_for]. *)
+Definition C06_full : Prop := forall s, damaged s \/ damaged_known s -> snd (run_str s) <> PDone.
 
-Definition C06_full_for (ill_formed : list N -> Prop) : Prop :=
-  forall s, ill_formed s -> snd (run_str s) <> PDone.
+(* the bracket / second-root fragment alone: OPEN -- neither proved nor refuted any more (the stray closer behind an empty
+   explicit key that refuted it is repaired).  Missing for a proof: the scanner half for all rendered trees (the tokens
+   of [render_flow f] are the brackets of [f]); the parser half is [C06_accepted_implies_balanced]. *)
+Definition C06_full_flow_fragment : Prop := forall s, damaged s -> snd (run_str s) <> PDone.
+
+(* the proved part, for EVERY text: it is rejected as soon as its scan fails or its token stream is unbalanced *)
+Theorem C06_full_partial : forall s,
+  (exists e m, snd (scan_of s) = SError e m) \/ (exists n, snd (scan_of s) = SPanic n)
+  \/ flow_balanced (fst (scan_of s)) [] = false ->
+  snd (run_str s) <> PDone.
+Proof. exact text_rejected_if_scan_fails_or_unbalanced. Qed.
+Print Assumptions C06_full_partial.
 
 Theorem C06_full_refuted : ~ C06_full.
-Proof. exact C06_full_flow_fragment_refuted. Qed.
+Proof. exact C06_full_damaged_refuted. Qed.
 Print Assumptions C06_full_refuted.
 
-(* four texts that are ill-formed by YAML 1.2.2 (productions quoted in known_findings_c06.jsonl) and accepted *)
-Definition stray_closer_text : list N := [91;32;63;32;93;32;93].                               (* [ ? ] ]            *)
-Definition long_flow_pair_key_text : list N := [91;32] ++ repeat 107 1025 ++ [58;32;118;32;93;10].  (* [ k^1025: v ]  *)
-Definition flow_continuation_text : list N := [107;58;32;91;97;44;10;39;98;39;93;10].         (* k: [a,  NL 'b']   *)
-Definition multiline_flow_pair_key_text : list N :=                                             (* - {} NL - [ DQ a NL b DQ: v ] *)
-  [45;32;123;125;10;45;32;91;32;34;97;10;32;98;34;58;32;118;32;93;10].
-
-Theorem C06_stray_closer_accepted : snd (run_str stray_closer_text) = PDone.
-Proof. vm_compute. reflexivity. Qed.
-Print Assumptions C06_stray_closer_accepted.
-
-Theorem C06_long_flow_pair_key_accepted : snd (run_str long_flow_pair_key_text) = PDone.
-Proof. vm_compute. reflexivity. Qed.
+(* the two texts that are ill-formed by YAML 1.2.2 (productions quoted in known_findings_c06.jsonl) and still accepted *)
+Theorem C06_long_flow_pair_key_accepted :
+  damaged_known long_flow_pair_key_text /\ snd (run_str long_flow_pair_key_text) = PDone.
+Proof. exact (conj long_flow_pair_key_is_damaged long_flow_pair_key_accepted). Qed.
 Print Assumptions C06_long_flow_pair_key_accepted.
 
-Theorem C06_flow_continuation_at_block_indentation_accepted : snd (run_str flow_continuation_text) = PDone.
-Proof. vm_compute. reflexivity. Qed.
+Theorem C06_flow_continuation_at_block_indentation_accepted :
+  damaged_known flow_continuation_text /\ snd (run_str flow_continuation_text) = PDone.
+Proof. exact (conj flow_continuation_is_damaged flow_continuation_at_block_indentation_accepted). Qed.
 Print Assumptions C06_flow_continuation_at_block_indentation_accepted.
 
-Theorem C06_multiline_flow_pair_key_accepted : snd (run_str multiline_flow_pair_key_text) = PDone.
-Proof. vm_compute. reflexivity. Qed.
-Print Assumptions C06_multiline_flow_pair_key_accepted.
-
-(* without the earlier flow mapping the very same pair is rejected (site 98): the acceptance is a stale-flag effect *)
-Theorem C06_multiline_flow_pair_key_rejected_without_mapping :
-  snd (run_str [45;32;91;32;34;97;10;32;98;34;58;32;118;32;93;10])
-  = PScanErr 98 {| m_index := 10; m_line := 2; m_col := 3 |}.
-Proof. vm_compute. reflexivity. Qed.
-Print Assumptions C06_multiline_flow_pair_key_rejected_without_mapping.
-
 Theorem C06_full_for_refuted : forall ill_formed,
-  ill_formed stray_closer_text \/ ill_formed long_flow_pair_key_text
-  \/ ill_formed flow_continuation_text \/ ill_formed multiline_flow_pair_key_text ->
-  ~ C06_full_for ill_formed.
-Proof.
-  intros ill H HF. destruct H as [H|[H|[H|H]]]; apply (HF _ H).
-  - exact C06_stray_closer_accepted.
-  - exact C06_long_flow_pair_key_accepted.
-  - exact C06_flow_continuation_at_block_indentation_accepted.
-  - exact C06_multiline_flow_pair_key_accepted.
-Qed.
+  ill_formed long_flow_pair_key_text \/ ill_formed flow_continuation_text -> ~ C06_full_for ill_formed.
+Proof. exact C06_full_for_refuted_by_known. Qed.
 Print Assumptions C06_full_for_refuted.
+
+(* the two texts recorded earlier as accepted, now rejected (regression witnesses of /repo c5ad60c and ad74b3e), with the
+   verdict, site and position the implementation reports; and the legal "[ ? ]" is accepted *)
+Theorem C06_stray_closer_rejected :
+  snd (run_str stray_closer_text) = PParseErr 3 {| m_index := 6; m_line := 1; m_col := 6 |}.
+Proof. exact stray_closer_rejected. Qed.
+Print Assumptions C06_stray_closer_rejected.
+
+Theorem C06_empty_explicit_key_accepted : snd (run_str empty_explicit_key_text) = PDone.
+Proof. exact empty_explicit_key_accepted. Qed.
+Print Assumptions C06_empty_explicit_key_accepted.
+
+Theorem C06_multiline_flow_pair_key_behind_flow_mapping_rejected :
+  snd (run_str multiline_flow_pair_key_text) = PScanErr 98 {| m_index := 15; m_line := 3; m_col := 3 |}
+  /\ snd (run_str multiline_flow_pair_key_other_document_text) = PScanErr 98 {| m_index := 13; m_line := 4; m_col := 2 |}.
+Proof. exact (conj multiline_flow_pair_key_text_rejected multiline_flow_pair_key_other_document_rejected). Qed.
+Print Assumptions C06_multiline_flow_pair_key_behind_flow_mapping_rejected.
 
 (* ================================================================================================ *)
 (* Examples: one text per damage class through the whole model pipeline (scanner + parser); the verdict,  *)
@@ -551,3 +817,26 @@ Example rejects_content_after_document_end :
   snd (run_str [97;10;46;46;46;32;98;10])
   = PScanErr 101 {| m_index := 6; m_line := 2; m_col := 4 |}.
 Proof. vm_compute. reflexivity. Qed.
+
+(* the hypotheses of the state-level theorem S5 are satisfiable: the scanner state of "a:" NL TAB "b: 1" at the start of
+   line 2 (inside the block mapping at indentation 0, looking for a line nested in column >= 1 ... here indentation 1
+   of the one-column indent behind ':'); the theorem gives the verdict of [rejects_tab_indentation] above *)
+Example tab_indentation_hypotheses_satisfiable :
+  let s : sc strin := {|
+    sc_in := {| si_chars := [9;98;58;32;49;10]; si_look := 2 |}; sc_mark := {| m_index := 3; m_line := 2; m_col := 0 |};
+    sc_tokens := []; sc_stream_start := true; sc_stream_end := false; sc_adjacent := 0; sc_ska := true;
+    sc_sks := [{| sk_possible := false; sk_required := false; sk_token_number := 0; sk_mark := mk0 |}];
+    sc_indent := 1%Z; sc_indents := [{| in_indent := 0%Z; in_needs_block_end := false |}; {| in_indent := (-1)%Z; in_needs_block_end := true |}];
+    sc_flow_level := 0; sc_tokens_parsed := 4; sc_token_available := false; sc_lws := true; sc_ifms := [] |} in
+  si_chars (sc_in s) = 9 :: [] ++ 98 :: [58;32;49;10] /\ blank_run SkipYes [] /\ is_content_start 98
+  /\ sc_indents s <> [] /\ sc_lws s = true /\ (Z.of_N (m_col (sc_mark s)) < sc_indent s)%Z
+  /\ skip_to_next_token str_ops 5 s = Err 41 {| m_index := 4; m_line := 2; m_col := 1 |}.
+Proof.
+  cbv zeta. repeat split; try discriminate; try constructor.
+Qed.
+
+(* the hypotheses of S8 at text level: an opening double quote followed by text with escapes, line breaks and a document
+   marker but no further double quote *)
+Example open_quoted_text_instance :
+  snd (run_str (34 :: [97;92;110;10;45;45;45;32;39;98;39;10])) <> PDone.
+Proof. apply (C06_open_quoted_text_rejected false). unfold qfree, qchar. cbn. intuition discriminate. Qed.
